@@ -58,7 +58,7 @@ def holes_for(pattern, nI, nX, rng):
 def cases(tier, seed):
     rng = random.Random('C08/%s' % seed)
     out = [dict(w) for w in WITNESS]
-    n = 60 if tier == 'quick' else 900
+    n = 200 if tier == 'quick' else 1500
     lays = [(4, (4, 4, -1)), (1, (4, 4, -1)), (16, (4, 4, -1)), (4, (8, 8, -1)), (2, (64, 64, 4)), (16, (4, 16, -1))]
     for i in range(n):
         nI, nX = rng.randint(2, 12), rng.randint(2, 12)
